@@ -426,22 +426,36 @@ fn fci_hist(f: &FciSpec, ch: &mut Ch) -> FciHolder<'static> {
 }
 
 struct Obs;
+
+fn obs_plan(n: Option<usize>) -> Vec<(usize, bool)> {
+    match n {
+        Some(n) => vec![(n, true)],
+        None => vec![],
+    }
+}
+
+fn obs_out(o: BuildObs) -> <Obs as Visit>::Out {
+    let bytes = match (&o.size, o.writes.first()) {
+        (Ok(Ok(n)), Some(w)) if w.result == Ok(Ok(*n)) => Some(w.after.clone()),
+        _ => None,
+    };
+    (o.size, bytes, o.get_padding)
+}
+
+macro_rules! obs_concrete {
+    ($f:ident, $t:ty) => {
+        fn $f(self, w: &$t) -> Self::Out {
+            obs_out(Observe { plan: obs_plan }.$f(w))
+        }
+    };
+}
+
 impl Visit for Obs {
     type Out = (Result<Result<usize, WErr>, Caught>, Option<Vec<u8>>, Result<Option<u8>, Caught>);
     fn go<W: RtcpPacketWriter>(self, w: &W) -> Self::Out {
-        let o = Observe {
-            plan: |n: Option<usize>| match n {
-                Some(n) => vec![(n, true)],
-                None => vec![],
-            },
-        }
-        .go(w);
-        let bytes = match (&o.size, o.writes.first()) {
-            (Ok(Ok(n)), Some(w)) if w.result == Ok(Ok(*n)) => Some(w.after.clone()),
-            _ => None,
-        };
-        (o.size, bytes, o.get_padding)
+        obs_out(Observe { plan: obs_plan }.go(w))
     }
+    crate::for_concrete_builders!(obs_concrete);
 }
 
 /// wrap in the PacketBuilder enum and/or a one-member compound, as the history says
@@ -449,17 +463,17 @@ fn finish<'a, B: RtcpPacketWriter + 'a>(b: B, ch: &mut Ch, wrap: impl FnOnce(B) 
     match ch.next() % 4 {
         1 => {
             ch.owned_after_set += 1;
-            Obs.go(&wrap(b))
+            Obs.go_enum(&wrap(b))
         }
         2 => {
             ch.owned_after_set += 1;
             let cb = Compound::builder();
             ch.probe(&cb);
-            Obs.go(&cb.add_packet(b))
+            Obs.go_compound(&cb.add_packet(b))
         }
         3 => {
             ch.owned_after_set += 1;
-            Obs.go(&Compound::builder().add_packet(wrap(b)))
+            Obs.go_compound(&Compound::builder().add_packet(wrap(b)))
         }
         _ => Obs.go(&b),
     }
